@@ -161,6 +161,13 @@ fn oracle_suite<S: ShortGroupSignatureScheme>(em: &mut Emitter, rng: &mut Rng, s
                         r5.push((i, msgs[i]));
                         r5.sort_by_key(|(i, _)| *i);
                         bad.push(("hidden-message-additionally-revealed", r5, false));
+                        // … and "revealed" as the zero scalar (a revealed zero contributes the identity)
+                        let mut r5z = rvl.clone();
+                        r5z.push((i, Scalar::ZERO));
+                        r5z.sort_by_key(|(i, _)| *i);
+                        if !bool::from(msgs[i].is_zero()) {
+                            bad.push(("hidden-message-revealed-as-zero", r5z, false));
+                        }
                     }
                 }
                 let mut r6 = rvl.clone();
@@ -263,6 +270,12 @@ fn model_bbs(em: &mut Emitter, rng: &mut Rng) {
             let mut r4 = rvl.clone();
             r4[0].1 += Scalar::ONE;
             vars.push(("revealed-changed", r4, c, abar, bbar, t, resp.clone(), x));
+        }
+        if let Some(&hi) = hid.first() {
+            let mut rz = rvl.clone();
+            rz.push((hi, Scalar::ZERO));
+            rz.sort_by_key(|(i, _)| *i);
+            vars.push(("hidden-revealed-as-zero", rz, c, abar, bbar, t, resp.clone(), x));
         }
         let mut r5 = rvl.clone();
         r5.push((n, rng.scalar()));
